@@ -4,7 +4,10 @@ rendered template, in a sync and in an async environment (async generators as
 input where the filter has an async variant); arguments are fingerprinted
 before/after every drive, and every result is searched for mutable containers
 it shares with the arguments (identity), then modified in place to see whether
-an argument moves."""
+an argument moves.  The six case-(in)sensitive comparison filters (unique, sort,
+groupby, min, max, dictsort; bare and through attribute=) additionally get
+strings with special case mappings, and their contract is explicit that "case
+insensitive" compares str.lower() of the keys."""
 from __future__ import annotations
 
 import itertools
@@ -16,14 +19,30 @@ from vt.model import c22_spec as SP
 PID = "C22"
 LEVEL = "exploration"
 TECHNIQUE = ("contract monitor over the results of the real filters: per-filter executable "
-             "specification + sync/async/template agreement + argument fingerprints + "
-             "result/argument aliasing (identity walk and modify-the-result probe)")
+             "specification (case-insensitive = keys compared lower-cased, told apart from other "
+             "caseless forms by special-casing strings) + sync/async/template agreement + argument "
+             "fingerprints + result/argument aliasing (identity walk and modify-the-result probe)")
 RULE = ("cases = (filter, subject kind, elements, positional/keyword arguments); an enumerated "
         "edge grid (batch/slice: every length 0-12 x count 1-5 x fill; unique/sort/groupby: every "
-        "sequence of length<=4 over a small mixed-case alphabet x flags) plus seeded random cases "
+        "sequence of length<=4 over a small mixed-case alphabet x flags; unique/groupby/sort/min/"
+        "max/dictsort, bare and with attribute=: every sequence of length<=3 over the "
+        "special-casing alphabets {sharp s, 'ss', capital sharp s, 'SZ'} and {sharp s, 'ss', 'ST', "
+        "long s} x case_sensitive) plus seeded random cases "
         "(ints with duplicates, mixed-case words, int/float mixes, nested dict/object records "
         "with dotted, integer and comma-separated attribute paths, (word,int) pairs, missing "
-        "attributes with defaults, truthiness bags) for all 21 filters; each case runs on "
+        "attributes with defaults, truthiness bags) for all 21 filters; 60% of the string-keyed "
+        "cases of the six comparison filters draw every string (elements, record attributes, "
+        "dict keys/values, pair members, groupby defaults) from a pool built around one of 7 "
+        "clusters of strings whose lower() differs from casefold() or upper-then-lower (sharp s, "
+        "fi/fl ligatures, long s, final sigma, dotless/dotted i, micro sign, n-apostrophe, iota "
+        "subscript, titlecase digraphs) with their look-alikes, other-case forms and sort "
+        "neighbours, with case_sensitive true and false. The contract compares lower() of the "
+        "keys; an input is AMBIGUOUS when two keys differ under lower() but are case variants "
+        "of each other (same upper()/casefold(), not both all-lower or all-upper: sharp s and "
+        "'SS') - there a result matching any of lower/casefold/upper-then-lower is accepted; "
+        "every other input is strict (all-lower-case keys must compare as in plain Python) and a "
+        "result that matches another caseless form is reported as "
+        "case-insensitive:keys-compared-by-<form>-not-lower-cased. Each case runs on "
         "list/tuple/generator/iter-only/str/dict subjects through call_filter and a template "
         "(|list, for-loop or direct form; arguments as variables or inline literals) in a sync "
         "and an async environment (async generator / async-iterable subjects for the 12 filters "
@@ -39,8 +58,14 @@ LEVEL_TEXT = ("held on K generated executions of the real filters covering the e
               "the generated element types")
 ASSUMPTIONS = [
     "autoescape is off (Markup-aware behaviour of join etc. belongs to C24)",
-    "case-insensitive comparisons are exercised on letters whose lower() is an unambiguous "
-    "case fold; keys inside one case are mutually comparable and hashable",
+    "case insensitive means the keys are compared lower-cased (ignore_case: 'Converts strings "
+    "to lowercase'; groupby: 'the lowercase key'; case_sensitive=True: 'sort upper and lower "
+    "case separately' / 'Treat upper and lower case strings as distinct'), so two different "
+    "strings that are both entirely lower-case (sharp s / 'ss', fi ligature / 'fi') stay "
+    "distinct and keep their plain Python order; only for a pair that differs under lower() "
+    "although one is the upper-casing of the other (sharp s / 'SS', final sigma / capital "
+    "sigma) both readings are accepted",
+    "keys inside one case are mutually comparable and hashable",
     "an input that the docstring does not cover (first/min/max of an empty input, ties in "
     "min/max) is only checked for sync/async/template agreement",
     "aliasing: only list and sort are required outright to return a new list (list(value) / "
@@ -57,18 +82,35 @@ FLOORS = {
               "counters": {"calls:call": 4000, "calls:tmpl": 4000, "calls:acall": 4000,
                            "calls:atmpl": 4000, "oracle_evaluations": 16000,
                            "async_iterable_subjects": 1200, "lazy_sync_subjects": 4000,
-                           "fingerprints_compared": 35000, "grid_cases": 1000,
+                           "fingerprints_compared": 35000, "grid_cases": 2200,
                            "alias_checks": 14000, "alias_result_pokes": 9000,
                            "alias_list_subject_list_result": 2200,
-                           "filters_exercised_min_cases": 120}},
+                           "filters_exercised_min_cases": 120,
+                           # special-casing workload: the enumerated grid alone gives 982 /
+                           # 498 / 60 / 386 / 196 / 153 and 44-88 per filter; the random
+                           # part adds ~2.7 strict discriminating inputs per 100 cases
+                           "fold_special_inputs": 900, "fold_special_case_sensitive": 400,
+                           "fold_ambiguous_inputs": 50, "fold_strict_discriminating": 350,
+                           "fold_strict_attribute": 150, "fold_strict_lazy_subject": 120,
+                           "fold_strict_random": 30,
+                           "fold_strict:unique": 40, "fold_strict:sort": 40,
+                           "fold_strict:groupby": 40, "fold_strict:min": 40,
+                           "fold_strict:max": 40, "fold_strict:dictsort": 40}},
     "thorough": {"evaluations": 600000, "distinct": 100000,
                  "counters": {"calls:call": 150000, "calls:tmpl": 150000, "calls:acall": 150000,
                               "calls:atmpl": 150000, "oracle_evaluations": 600000,
                               "async_iterable_subjects": 50000, "lazy_sync_subjects": 150000,
-                              "fingerprints_compared": 1200000, "grid_cases": 1000,
+                              "fingerprints_compared": 1200000, "grid_cases": 2200,
                               "alias_checks": 550000, "alias_result_pokes": 350000,
                               "alias_list_subject_list_result": 90000,
-                              "filters_exercised_min_cases": 6000}},
+                              "filters_exercised_min_cases": 6000,
+                              "fold_special_inputs": 4000, "fold_special_case_sensitive": 1500,
+                              "fold_ambiguous_inputs": 300, "fold_strict_discriminating": 1500,
+                              "fold_strict_attribute": 700, "fold_strict_lazy_subject": 500,
+                              "fold_strict_random": 1000,
+                              "fold_strict:unique": 150, "fold_strict:sort": 150,
+                              "fold_strict:groupby": 150, "fold_strict:min": 150,
+                              "fold_strict:max": 150, "fold_strict:dictsort": 150}},
 }
 N_RANDOM = {"quick": 2000, "thorough": 80000}
 
@@ -77,6 +119,21 @@ N_RANDOM = {"quick": 2000, "thorough": 80000}
 WORDS = ["foo", "Foo", "FOO", "bar", "Bar", "baz", "a", "A", "b", "B", "zebra", "Zebra",
          "apple", "Apple", "éclair", "Éclair", "mañana", "x1", "X1", "Hello World"]
 CITIES = ["NY", "ny", "LA", "la", "Berlin", "berlin", "SF", "Ny"]
+NICKS = ["zed", "Zed", "amy", "Amy", "bob"]
+# strings with SPECIAL case mappings (str.lower() differs from str.casefold() or from
+# upper-then-lower: sharp s, ligatures, long s, final sigma, dotless/dotted i, micro sign,
+# n-apostrophe, iota subscript, titlecase digraphs) next to their look-alikes and plain
+# neighbours in the sort order; per cluster (entirely lower-case forms, other-case forms)
+FOLD_CLUSTERS = [
+    (["ß", "ss", "sz", "st", "straße", "strasse", "s"],
+     ["SS", "ẞ", "Straße", "STRASSE", "ST", "Ss", "SZ"]),
+    (["ﬁsh", "fish", "ﬁ", "fi", "ﬂ", "fl", "fj"], ["FISH", "Fish", "FI", "FL", "FJ"]),
+    (["ſ", "s", "ſt", "st", "r", "t"], ["S", "ST", "T", "St", "R"]),
+    (["ς", "σ", "ας", "ασ", "τ", "ρ"], ["Σ", "ΑΣ", "Τ", "Ρ"]),
+    (["ı", "i", "i̇", "j", "h"], ["I", "İ", "J", "H"]),
+    (["µ", "μ", "ŉ", "ʼn", "ν", "n"], ["Μ", "ʼN", "Ν", "N"]),
+    (["ᾳ", "αι", "ǆ", "α", "β"], ["ᾼ", "ΑΙ", "ǅ", "Ǆ", "Α"]),
+]
 LENGTHS = [0, 1, 1, 2, 2, 3, 3, 4, 5, 6, 7, 8, 9, 10, 12, 15, 24]
 FILTERS = SP.ALL_FILTERS
 
@@ -93,9 +150,33 @@ def words(rng, n, pool=WORDS):
     return [rng.choice(pool) for _ in range(n)]
 
 
-def record(rng, style, drop_nick=True, drop_addr=False):
+def fold_pool(rng):
+    """A small word pool around one cluster of special-casing strings.  Half of
+    the pools are built so that no two words are case variants of each other
+    with different lower() forms (the contract is strict on them, see
+    c22_spec.fold_profile); the other half mixes the cases freely."""
+    lows, others = rng.choice(FOLD_CLUSTERS)
+    plain = rng.sample(WORDS, rng.randint(0, 3))
+    if rng.random() < 0.5:
+        src, k = lows, rng.randint(2, len(lows))
+    else:
+        src, k = lows + others, rng.randint(2, 6)
+    # always at least one special-casing string
+    pool = [rng.choice([w for w in src if SP.is_special(w)])]
+    pool += rng.sample([w for w in src if w != pool[0]], k - 1)
+    if src is lows:
+        for w in rng.sample(others, rng.randint(0, 3)):
+            if not SP.fold_profile(pool + [w])["ambiguous"]:
+                pool.append(w)
+    rng.shuffle(pool)
+    return pool + plain
+
+
+def record(rng, style, drop_nick=True, drop_addr=False, pool=None):
     """Nested record; style 0 = dicts, 1 = object with dict inside, 2 = objects
-    all the way, 3 = dict holding an object."""
+    all the way, 3 = dict holding an object.  ``pool``: the words of every
+    string attribute (default: WORDS / CITIES / NICKS)."""
+    WORDS, CITIES, NICKS = (pool, pool, pool) if pool else _DEFAULT_POOLS
     addr = {"city": rng.choice(CITIES), "zip": [rng.randint(0, 3), rng.randint(0, 9)]}
     d = {
         "name": rng.choice(WORDS),
@@ -108,8 +189,11 @@ def record(rng, style, drop_nick=True, drop_addr=False):
     if not (drop_addr and rng.random() < 0.4):
         d["addr"] = F.Obj(**addr) if style in (2, 3) else addr
     if not (drop_nick and rng.random() < 0.4):
-        d["nick"] = rng.choice(["zed", "Zed", "amy", "Amy", "bob"])
+        d["nick"] = rng.choice(NICKS)
     return F.Obj(**d) if style in (1, 2) else d
+
+
+_DEFAULT_POOLS = (WORDS, CITIES, NICKS)
 
 
 def records(rng, n, **kw):
@@ -156,6 +240,20 @@ def gen_case(rng, name):
     kind = rng.choice(kinds_for(name))
     args, kwargs = [], {}
     data = None
+    # the word pool of the six case-(in)sensitive comparison filters: half of
+    # their cases draw every string (elements, record attributes, dict keys and
+    # values, pair members, groupby defaults) from a special-casing pool
+    # (decided when the first string is drawn, so numeric cases do not use it up)
+    fold = []
+
+    def fp():
+        if not fold:
+            fold.append(fold_pool(rng) if name in SP.FOLDING and rng.random() < 0.6 else None)
+        return fold[0]
+
+    def str_attr(choices):
+        # with a special-casing pool prefer the attributes that hold its words
+        return rng.choice(STR_ATTRS if fp() and rng.random() < 0.6 else choices)
 
     if name in ("batch", "slice"):
         if rng.random() < 0.5:
@@ -176,16 +274,16 @@ def gen_case(rng, name):
         cs = rng.random() < 0.5
         attr = None
         if r < 0.35:
-            data = words(rng, n)
+            data = words(rng, n, (fp() or WORDS))
         elif r < 0.5:
             data = ints(rng, n, 0, 4)
         elif r < 0.6:
             data = [rng.choice([0.5, 1.5, 2, 3, -1, 2.5]) for _ in range(n)]
         elif r < 0.9:
-            data = records(rng, n, drop_nick=False)
-            attr = rng.choice(STR_ATTRS + INT_ATTRS + ["active"])
+            data = records(rng, n, drop_nick=False, pool=fp())
+            attr = str_attr(STR_ATTRS + INT_ATTRS + ["active"])
         else:
-            data = [[rng.choice(WORDS), rng.randint(0, 3)] for _ in range(n)]
+            data = [[rng.choice((fp() or WORDS)), rng.randint(0, 3)] for _ in range(n)]
             if rng.random() < 0.5:
                 data = [tuple(x) for x in data]
             attr = rng.choice([0, 1])
@@ -197,10 +295,10 @@ def gen_case(rng, name):
         cs = rng.random() < 0.4
         default = None
         if r < 0.65:
-            data = records(rng, n, drop_nick=False)
-            attr = rng.choice(STR_ATTRS + INT_ATTRS + ["active"])
+            data = records(rng, n, drop_nick=False, pool=fp())
+            attr = str_attr(STR_ATTRS + INT_ATTRS + ["active"])
         elif r < 0.85:
-            data = records(rng, n, drop_nick=True, drop_addr=rng.random() < 0.5)
+            data = records(rng, n, drop_nick=True, drop_addr=rng.random() < 0.5, pool=fp())
             attr = rng.choice(["nick", "nick", "addr.city", "addr.zip.0"])
             if attr == "addr.zip.0":
                 default = rng.choice([7, 9, "NY"]) if rng.random() < 0.3 else rng.choice([7, 9])
@@ -213,9 +311,9 @@ def gen_case(rng, name):
                         elif hasattr(x, "addr"):
                             del x.addr
             else:
-                default = rng.choice(["anon", "Anon", "NY", "zed"])
+                default = rng.choice(fp() or ["anon", "Anon", "NY", "zed"])
         else:
-            data = [[rng.choice(WORDS), rng.randint(0, 3)] for _ in range(n)]
+            data = [[rng.choice((fp() or WORDS)), rng.randint(0, 3)] for _ in range(n)]
             if rng.random() < 0.5:
                 data = [tuple(x) for x in data]
             attr = rng.choice([0, 1])
@@ -229,16 +327,16 @@ def gen_case(rng, name):
         cs = rng.random() < 0.4
         attr = None
         if r < 0.3:
-            data = words(rng, n)
+            data = words(rng, n, (fp() or WORDS))
         elif r < 0.45:
             data = ints(rng, n)
         elif r < 0.55:
             data = [rng.choice([1, 1.0, 2, 2.0, 0.5, -1, -1.0, 3]) for _ in range(n)]
         elif r < 0.9:
-            data = records(rng, n, drop_nick=False)
-            attr = rng.choice(STR_ATTRS + INT_ATTRS + MULTI_ATTRS + MULTI_ATTRS + ["score"])
+            data = records(rng, n, drop_nick=False, pool=fp())
+            attr = str_attr(STR_ATTRS + INT_ATTRS + MULTI_ATTRS + MULTI_ATTRS + ["score"])
         else:
-            data = [[rng.choice(WORDS), rng.randint(0, 3)] for _ in range(n)]
+            data = [[rng.choice((fp() or WORDS)), rng.randint(0, 3)] for _ in range(n)]
             attr = rng.choice([0, 1, "0,1", "1,0"])
         args, kwargs = argstyle(rng, ["reverse", "case_sensitive", "attribute"], [rev, cs, attr])
         args, kwargs = drop_defaults(rng, name, args, kwargs)
@@ -248,14 +346,14 @@ def gen_case(rng, name):
     elif name == "dictsort":
         kind = "dict"
         keys = []
-        pool = WORDS if rng.random() < 0.8 else [1, 5, 3, 2, 9, 0, -4, 7, 12, 10]
+        pool = (fp() or WORDS) if rng.random() < 0.8 else [1, 5, 3, 2, 9, 0, -4, 7, 12, 10]
         for w in (rng.choice(pool) for _ in range(n)):
             if w not in keys:
                 keys.append(w)
         if rng.random() < 0.5:
             vals = [rng.randint(0, 4) for _ in keys]
         else:
-            vals = [rng.choice(WORDS) for _ in keys]
+            vals = [rng.choice((fp() or WORDS)) for _ in keys]
         data = dict(zip(keys, vals))
         args, kwargs = argstyle(rng, ["case_sensitive", "by", "reverse"],
                                 [rng.random() < 0.4, rng.choice(["key", "value"]),
@@ -280,14 +378,14 @@ def gen_case(rng, name):
         cs = rng.random() < 0.5
         attr = None
         if r < 0.3:
-            data = words(rng, n)
+            data = words(rng, n, (fp() or WORDS))
         elif r < 0.5:
             data = ints(rng, n)
         elif r < 0.6:
             data = [rng.choice([0.5, 1.5, 2, 3, -1, 2.5, -7, 10]) for _ in range(n)]
         else:
-            data = records(rng, n, drop_nick=False)
-            attr = rng.choice(STR_ATTRS + INT_ATTRS + ["score"])
+            data = records(rng, n, drop_nick=False, pool=fp())
+            attr = str_attr(STR_ATTRS + INT_ATTRS + ["score"])
         args, kwargs = argstyle(rng, ["case_sensitive", "attribute"], [cs, attr])
         args, kwargs = drop_defaults(rng, name, args, kwargs)
 
@@ -471,6 +569,42 @@ def grid_cases():
             if L <= 3:
                 add("sort", "list", [{"k": c, "i": j} for j, c in enumerate(seq)], [],
                     {"attribute": "k", "reverse": rev, "case_sensitive": cs})
+    # the same grids over special-casing alphabets: sharp s (lower-case, its
+    # capital form, its look-alike 'ss' and upper-casing 'SS') and long s, with a
+    # plain upper-case neighbour that lower() and the other caseless forms order
+    # differently against them; every sequence of length <= 3 x case_sensitive,
+    # for all six comparison filters, bare and through attribute=
+    alpha = ["ß", "ss", "ẞ", "SZ"]
+    for L in range(0, 4):
+        for seq in itertools.product(alpha, repeat=L):
+            for cs in (False, True):
+                i += 1
+                add("unique", ("list", "gen", "agen", "tuple")[i % 4], list(seq),
+                    [cs] if i % 2 else [], {} if i % 2 else {"case_sensitive": cs})
+                recs = [{"k": c, "i": j} for j, c in enumerate(seq)]
+                add("groupby", ("list", "agen", "gen")[i % 3], recs, ["k"],
+                    {"case_sensitive": cs})
+                add("unique", ("agen", "list", "gen")[i % 3], recs, [],
+                    {"case_sensitive": cs, "attribute": "k"}, ("list", "for")[i % 2])
+    alpha = ["ß", "ss", "ST", "ſ"]
+    for L in range(0, 4):
+        for seq in itertools.product(alpha, repeat=L):
+            i += 1
+            rev, cs = bool(i & 1), bool(i & 2)
+            recs = [{"k": c, "i": j} for j, c in enumerate(seq)]
+            add("sort", ("list", "gen", "tuple")[i % 3], list(seq), [rev, cs], {})
+            add("sort", "list", recs, [], {"attribute": "k", "reverse": rev,
+                                           "case_sensitive": not cs})
+            if L:
+                for f in ("min", "max"):
+                    add(f, ("list", "gen", "tuple")[i % 3], list(seq), [cs], {})
+                    add(f, ("gen", "list")[i % 2], recs, [], {"case_sensitive": not cs,
+                                                              "attribute": "k"})
+            add("dictsort", "dict", {j: c for j, c in enumerate(seq)}, [],
+                {"by": "value", "case_sensitive": cs, "reverse": rev})
+            if len(set(seq)) == len(seq):
+                for cs2 in (False, True):
+                    add("dictsort", "dict", {c: j for j, c in enumerate(seq)}, [cs2], {})
     return out
 
 
@@ -546,6 +680,7 @@ def run_case(ctx, rig, case, count=True):
     desc = None
     sync_norm = None
     alias_ref = {}      # 'call' / 'tmpl' -> aliasing of the sync result
+    profile = {}        # case-folding profile of the input (six comparison filters)
     for path in PATHS:
         out, data, items, args, kwargs, S, kind = drive(rig, case, path)
         ctx.ev()
@@ -558,7 +693,10 @@ def run_case(ctx, rig, case, count=True):
         is_async = path[0] == "a"
         # ---- result
         if out.ok:
-            verdict = SP.check(name, items, kind, args, kwargs, out.value, S)
+            info = {}
+            verdict = SP.check(name, items, kind, args, kwargs, out.value, S, info)
+            if path == "call":
+                profile = info
             norm = ("ok", S.norm(out.value))
         else:
             verdict = ("raises:" + out.exc_name(), out.describe())
@@ -660,7 +798,7 @@ def run_case(ctx, rig, case, count=True):
                                   f"[{path}] {desc}: after appending to / overwriting the "
                                   f"containers of the returned value the argument {changed} is "
                                   f"{(data if changed == 'value' else '...')!r:.200}", case)
-    return
+    return profile
 
 
 def _root(argpath):
@@ -679,9 +817,34 @@ def nontrivial(case):
     return len(d) >= 2
 
 
+def count_fold(ctx, case, profile, strict_per_filter, grid=False):
+    """Monitor counters of the special-casing workload (per case, from the
+    profile the specification computed for the call_filter drive)."""
+    if not profile.get("special"):
+        return
+    ctx.count("fold_special_inputs")
+    if profile["case_sensitive"]:
+        ctx.count("fold_special_case_sensitive")
+    elif profile["ambiguous"]:
+        ctx.count("fold_ambiguous_inputs")
+    elif profile["discriminating"]:
+        # case-insensitive, strict, and lower() / casefold() / upper-then-lower
+        # identify or order some pair of its keys differently
+        ctx.count("fold_strict_discriminating")
+        if not grid:
+            ctx.count("fold_strict_random")
+        strict_per_filter[case["filter"]] += 1
+        p = SP.bind(case["filter"], F.dec(case["args"]), F.dec(case["kwargs"]))
+        if p.get("attribute") is not None:
+            ctx.count("fold_strict_attribute")
+        if case["kind"] in ("gen", "iter", "agen", "aiter"):
+            ctx.count("fold_strict_lazy_subject")
+
+
 def run(ctx):
     rig = F.Rig()
     per_filter = {f: 0 for f in FILTERS}
+    strict_per_filter = {f: 0 for f in sorted(SP.FOLDING)}
     try:
         # ---- enumerated grid, statically partitioned
         grid = grid_cases()
@@ -689,7 +852,7 @@ def run(ctx):
         for i, case in enumerate(grid):
             if not ctx.mine(i):
                 continue
-            run_case(ctx, rig, case)
+            count_fold(ctx, case, run_case(ctx, rig, case), strict_per_filter, grid=True)
             ctx.count("grid_cases")
             per_filter[case["filter"]] += 1
             if nontrivial(case):
@@ -704,7 +867,7 @@ def run(ctx):
         while ctx.more(i, n_max, floor=200):
             name = FILTERS[(i + ctx.shard) % len(FILTERS)]
             case = gen_case(rng, name)
-            run_case(ctx, rig, case)
+            count_fold(ctx, case, run_case(ctx, rig, case), strict_per_filter)
             ctx.count("random_cases")
             per_filter[name] += 1
             if nontrivial(case):
@@ -715,6 +878,8 @@ def run(ctx):
         for f, c in per_filter.items():
             ctx.count("cases:" + f, c)
         ctx.count("filters_exercised_min_cases", min(per_filter.values()))
+        for f, c in strict_per_filter.items():
+            ctx.count("fold_strict:" + f, c)
     finally:
         rig.close()
 
